@@ -31,6 +31,7 @@ dur rebuildx                                        ⇒ ok seq=<db.seq> (<hexk>=
 dur recoverx                                        ⇒ the same, followed by ` seq=<db.seq> j=<stJournalNum>
                                                        replayed=<journal nums> live=[<level>:<num>,…]` (debugging aid)
 dur batch <hex>                                     ⇒ ok <seq> <n> (<kind> <key> <val>)* | err     (`Batch.decode`)
+dur bbody <hex|->                                   ⇒ ok <n> (<kind> <key> <val>)* | err           (`Batch.Load`: `decodeBatch` on the records alone)
 dur rec <hex>                                       ⇒ ok <canonical record> | err                 (`SessionRecord.decode`)
 ```
 Trace validation of the write path under storage faults (C08): the recorded journal operations of every client
@@ -389,6 +390,14 @@ def handleDur (st : DurState) : List String → Option (DurState × String)
     | some (seq, rs) =>
       let body := rs.map fun r => s!" {r.kind} {toHexField r.key} {toHexField r.val}"
       pure (st, s!"ok {seq} {rs.length}{String.join body}")
+  | ["bbody", h] => do
+    -- `Batch.Load(body)` = `decodeBatch` over the records alone (what `Batch.Dump` returns; no header)
+    let b ← (if h = "-" then some [] else fromHex h)
+    match Batch.decodeRecs b with
+    | (_, some _) => pure (st, "err")
+    | (rs, none) =>
+      let body := rs.map fun r => s!" {r.kind} {toHexField r.key} {toHexField r.val}"
+      pure (st, s!"ok {rs.length}{String.join body}")
   | ["rec", h] => do
     let b ← fromHex h
     match Manifest.SessionRecord.decode b with
